@@ -3,7 +3,7 @@
    read back, checked against write_object / read_object by vm_compute. *)
 From Coq Require Import String List NArith ZArith Bool.
 From J5V.lib Require Import Outcome Corr.
-From J5V.model Require Import RulesDecl RulesWrite RulesRead RulesEnum RulesCorr RulesNested RulesInlineEnum.
+From J5V.model Require Import RulesDecl RulesWrite RulesRead RulesEnum RulesCorr RulesNested RulesInlineEnum RulesCompile Regex.
 From J5V.model Require ProtoPrintFile ProtoPrintFileWf RulesView RulesTextModel.
 Import ListNotations.
 
@@ -54,6 +54,9 @@ Definition rprop_eq_dec : forall a b : rprop, {a = b} + {a <> b}.
 Proof. decide equality; [apply list_eq_dec; apply N.eq_dec | apply prop_eq_dec]. Defined.
 
 Definition rprop_eqb (a b : rprop) : bool := if rprop_eq_dec a b then true else false.
+Definition rxprop_eq_dec : forall a b : rxprop, {a = b} + {a <> b}.
+Proof. decide equality; [decide equality; apply ostr_eq_dec | apply oZ_eq_dec | apply rprop_eq_dec]. Defined.
+Definition rxprop_eqb (a b : rxprop) : bool := if rxprop_eq_dec a b then true else false.
 
 Fixpoint list_eqb2 {A B} (f : A -> B -> bool) (a : list A) (b : list B) : bool :=
   match a, b with
@@ -83,8 +86,10 @@ Proof. decide equality; try apply str_eq_dec; apply list_eq_dec; first [apply va
 Inductive otree := OT (k : rkind) (name desc : str) (props : list (option rprop)) (inner : list otree).
 
 Inductive c04case :=
-| C04Case (env : enum_env) (ds : list prop) (obs : list fout) (refl : outcome (list (option rprop)))
+| C04Case (env : enum_env) (xs : list xprop) (obs : list fout) (refl : outcome (list (option rxprop)))
           (same : list bool)   (* per property: the direct oracle found declared = reflected *)
+(* the link step: the declared properties and whether the real compiler accepted the object *)
+| C04Link (env : enum_env) (xs : list xprop) (compiles : bool)
 (* an enum: declaration, the compiled enum, the reflected enum schema *)
 | C04Enum (e : enum_decl) (obs : enum_out) (refl : outcome renum)
 (* the printed text: annotations of the in-memory fields, annotations of the
@@ -151,38 +156,42 @@ Fixpoint rtree_matches (a : rtree) (b : otree) : bool :=
             end) i1 i2
   end.
 
-(* per property: is the reflected property the declared one (RulesRead.norm_prop)? *)
-Fixpoint declared_eq (env : enum_env) (idx : N) (ds : list prop) (rs : list (option rprop)) : list bool :=
+(* per property: is the reflected property the declared one (RulesCompile.norm_xprop)? *)
+Fixpoint declared_eq (env : enum_env) (idx : N) (ds : list xprop) (rs : list (option rxprop)) : list bool :=
   match ds, rs with
   | d :: dr, r :: rr =>
-      (match r with Some r => rprop_eqb (norm_prop env idx d) r | None => false end)
+      (match r with Some r => rxprop_eqb (norm_xprop env idx d) r | None => false end)
       :: declared_eq env (idx + 1)%N dr rr
   | _, _ => []
   end.
 
 Definition c04_check (c : c04case) : bool :=
   match c with
-  | C04Case env ds obs refl same =>
+  | C04Case env xs obs refl same =>
       (* whether a property reads back as declared: the Go oracle's verdict (declared
-         vs reflected schema_j5pb values), the Coq specification norm_prop compared with
+         vs reflected schema_j5pb values), the Coq specification norm_xprop compared with
          what the real reflector returned, and the fragment rt_ok the exactness theorem
-         predicts — all three coincide *)
+         predicts — all three coincide. The compiler is compile_object: front checks
+         (regexp.Compile = the RE2-fragment parser), write_prop, map annotation, link step *)
       match refl with
-      | Ok rs => list_eqb Bool.eqb (map rt_ok ds) same
-                 && list_eqb Bool.eqb (declared_eq env 0%N ds rs) same
+      | Ok rs => list_eqb Bool.eqb (map xrt_ok xs) same
+                 && list_eqb Bool.eqb (declared_eq env 0%N xs rs) same
       | _ => true
       end &&
-      match write_object env ds with
+      forallb x_wf xs &&
+      match compile_object re_frag_ok env xs with
       | Ok os => list_eqb (fun a b => fout_eqb (c04_proj a) (c04_proj b)) os obs
       | _ => false
       end &&
-      match read_object env obs, refl with
+      match read_xprops env obs, refl with
       | Ok ps, Ok rs =>
-          list_eqb2 (fun p r => match r with Some r => rprop_eqb p r | None => false end) ps rs
+          list_eqb2 (fun p r => match r with Some r => rxprop_eqb p r | None => false end) ps rs
       | Err _, Err _ => true
       | Panic _, Panic _ => true
       | _, _ => false
       end
+  | C04Link env xs compiles =>
+      Bool.eqb (match compile_object re_frag_ok env xs with Ok _ => true | _ => false end) compiles
   | C04Text mem txt same_schema =>
       (* the text clause: where the reader's view of the fields is the same, the
          reflected schemas are (C04_text_clause) *)
